@@ -110,7 +110,7 @@ pub fn check_case(c: &Case, env: &Env) -> CheckResult {
         rops.push(ROp::Code(call));
     }
     rops.push(ROp::Bits(9));
-    let s = RStream { cfg: RCfg::new(c.e, RKind::Buf(Wd::U32), RBackend::Strict), model: &model, starts: &starts, tables: &env.tables };
+    let s = RStream { cfg: RCfg::new(c.e, RKind::Buf(Wd::U32), RBackend::Strict), model: &model, starts: &starts, tables: &env.tables, free_codes: &[] };
     run_reader(&s, &with_pos(rops)).map_err(|mut f| {
         f.sig = format!("r/{}", f.sig);
         f
